@@ -774,9 +774,6 @@ def classify(failure):
             n = sum(1 for i in list.__iter__(las.version) if mcmp(tr, useful(i.original_mnemonic), "WRAP") or mcmp(tr, i.mnemonic, "WRAP"))
             if n >= 2:
                 return "dup-wrap-grows"
-    if cl in ("truth-step", "truth-step-written") and isinstance(d, dict) and d.get("n", 0) >= 2:
-        if "%.5f" % d["index0"] == "%.5f" % d["index_last"]:
-            return "step-dropped-when-stop-prints-as-strt"
     return None
 
 
@@ -785,7 +782,8 @@ def run(run):
     plain = dict(version=2.0, wrap=None, fmt="%.5f", column_fmt=[], len_numeric_field=None, lhs_spacer=" ", spacer=" ", data_width=79,
                  header_width=60, mnemonics_header=False, data_section_header="~ASCII")
     history(run, DUP_WRAP, [dict(plain, wrap=True)] * 2, ["candidate:dup-wrap"], pend)
-    history(run, RETURNING, [plain] * 2, ["candidate:returning-index"], pend)
+    # the input of the repaired finding "STEP dropped when STOP prints like STRT" (62bf842), re-run through the oracle on every run
+    history(run, RETURNING, [plain] * 2, ["fixed-finding:returning-index"], pend)
     history(run, FINE_STEP, [plain] * 2, ["candidate:fine-step"], pend)
     rng = run.rng
     # objects built from scratch
@@ -916,5 +914,6 @@ LEVEL_TEXT = ("Machine-checked Lean 4 theorems about an executable object-level 
               "after the call).  Tie: every real write of the generated histories vs the compiled model (text byte-exact + object dump), "
               "and the property's oracle on the real code (full snapshots, repeated writes, re-read outputs).")
 LEVEL_NOTE = ("binary64 subtraction and str() of numbers are inputs of the model.  The truthfulness clause about the re-read OUTPUT is "
-              "oracle-only.  Candidate findings kept strict: duplicated WRAP items grow by one per write(wrap=...); STEP is written as 0 / "
-              "empty when STOP prints like STRT although the index has a first increment.")
+              "oracle-only.  Known finding: duplicated WRAP items grow by one per write(wrap=...).  Repaired finding "
+              "(62bf842): STEP was written as 0 / empty when STOP printed like STRT although the index had a first increment; its input "
+              "[1, 2, 1] is run first on every run.")
